@@ -14,7 +14,11 @@ Ev == TraceLog[l]
 
 Good(e, exp) == /\ e.res.crash = ""
                 /\ e.res.ok = exp.ok
-                /\ exp.ok => (e.res.shape = exp.shape /\ e.res.elems = exp.elems)
+                /\ exp.ok => /\ e.res.shape = exp.shape
+                             /\ IF "tol" \in DOMAIN exp      \* real values travel as scaled integers and agree within the stated tolerance
+                                THEN /\ Len(e.res.elems) = Len(exp.elems)
+                                     /\ \A q \in 1..Len(exp.elems) : e.res.elems[q] - exp.elems[q] <= exp.tol /\ exp.elems[q] - e.res.elems[q] <= exp.tol
+                                ELSE e.res.elems = exp.elems
                 /\ (exp.ok /\ "dtype" \in DOMAIN exp) => e.res.dtype = exp.dtype
 
 TInit == l = 1 /\ bad = <<>>
